@@ -78,9 +78,13 @@ def tanh_specs(lo, hi):
   return [{"k": "fs", "q": "quantized_tanh", "bits": b, "int": 0} for b in range(max(lo, 2), hi + 1)]
 
 
-def grid(max_bits, with_tanh=True):
-  """Every operand spec with bits <= max_bits."""
-  out = fixed_specs(1, max_bits) + po2_specs(1, max_bits) + small_specs()
+PO2_MAX_BITS = 10      # exponents up to +-2^9; float32 itself ends at 2^+-127 (bits 8 / 9)
+
+
+def grid(max_bits, with_tanh=True, po2_max_bits=None):
+  """Every operand spec with bits <= max_bits (power-of-two types: <= po2_max_bits)."""
+  pb = min(max_bits, PO2_MAX_BITS if po2_max_bits is None else po2_max_bits)
+  out = fixed_specs(1, max_bits) + po2_specs(1, pb) + small_specs()
   if with_tanh:
     out += tanh_specs(2, max_bits)
   return out
@@ -99,9 +103,10 @@ def random_spec(rnd, lo, hi):
       i = 0
     return {"k": "fu", "q": q, "bits": b, "int": i}
   if r < 0.75:
-    b = max(b, 2)
+    b = min(max(b, 2), PO2_MAX_BITS + 2)
     return {"k": "ps", "q": "quantized_po2", "bits": b, "mve": rnd.choice(po2_mves(b, True))}
   if r < 0.95:
+    b = min(b, PO2_MAX_BITS + 2)
     return {"k": "pu", "q": "quantized_relu_po2", "bits": b, "mve": rnd.choice(po2_mves(b, False))}
   return rnd.choice(small_specs())
 
